@@ -231,3 +231,7 @@ func (s *BadgerStore) SimDBGetRepertoireKeys() ([]string, error) {
 func (s *InmemStore) SimCacheLens() (events, rounds, blocks, frames int) {
 	return s.eventCache.Len(), s.roundCache.Len(), s.blockCache.Len(), s.frameCache.Len()
 }
+
+// SimEvictBlock drops a block from the in-memory block cache, as the LRU would
+// under a smaller cache size; later reads fall back to the database.
+func (s *BadgerStore) SimEvictBlock(index int) { s.inmemStore.blockCache.Remove(index) }
